@@ -60,3 +60,32 @@ Qed.
 (* the same schedule on the repaired step function: the caller keeps waiting *)
 Lemma witness_fixed_blocks : run true cfg0 (init 0) witness_acts = None.
 Proof. vm_compute. reflexivity. Qed.
+
+(** * The first repair (af6ced9: the sender ignores a routed control response) still loses replies
+
+    The control response is still put into the sender's one-slot channel; a genuine reply dispatched
+    before the sender has taken it out finds the slot occupied and is discarded, and the send ends in
+    T3 although the peer replied at once. *)
+Definition w_reply : frame := mkF 1 1 2 0 0 1 [177; 4; 0; 0; 0; 3].   (* S1F2, system bytes 1 *)
+
+Definition lost_reply_acts : list action :=
+  [ANewGen; AConnUp; APeer w_selreq; ADispatch; ADrain true;
+   AStart 1 KSync w_primary;
+   AStep 1 CGo; AStep 1 CGo; AStep 1 CGo; AStep 1 CGo; AStep 1 CWriteOk;
+   APeer w_ltrsp; APeer w_reply;        (* Linktest.rsp(system bytes 1), then the real reply, back to back *)
+   ADispatch; ADispatch;                (* both dispatched before the sender runs: the reply is discarded *)
+   AStep 1 CChan;                       (* the sender takes the control response and ignores it *)
+   ATick 45000; AStep 1 CTimer; AStep 1 CGo; ABarrier].
+
+Lemma lost_reply_witness : exists s os,
+  run true cfg0 (init 0) lost_reply_acts = Some (s, os) /\
+  In (OPeerSent 3 w_reply) os /\ is_secondary w_reply = true /\ f_sys w_reply = 1 /\
+  In (ORet 1 RT3 45000) os /\
+  (forall h, ~ In (OHandler h 3) os) /\ (forall id el, ~ In (ORet id (ROk (Some (3, w_reply))) el) os) /\
+  ok_C06 cfg0 os = true.
+Proof.
+  eexists. eexists. split; [vm_compute; reflexivity|].
+  repeat split; try (vm_compute; tauto); try reflexivity.
+  - intros h H. vm_compute in H. repeat (destruct H as [H|H]; [discriminate|]). exact H.
+  - intros id el H. vm_compute in H. repeat (destruct H as [H|H]; [discriminate|]). exact H.
+Qed.
